@@ -126,6 +126,7 @@ class CursorAnalysis:
         self.analysed = set()
         self.loops = {}       # (qualname, lineno) -> info
         self.esc_sites = set()  # (qualname, lineno) of eat(<escape character>) calls seen
+        self.vague_preds = set()   # predicates whose value on the empty sentinel could not be tabulated (assumed to accept it)
 
     def token_classes(self):
         if not hasattr(self, '_tcs'):
@@ -157,7 +158,10 @@ class CursorAnalysis:
             return v == ''
         e = self.p.resolve_expr(scope, pred_expr) if isinstance(pred_expr, (ast.Name, ast.Attribute)) else None
         if e is not None and e.kind == 'func':
-            return self.truthy_on_empty(e.obj, sentinel)
+            r = self.truthy_on_empty(e.obj, sentinel)
+            if e.obj.qualname in self.vague_preds:
+                self.last_vague = e.obj.short
+            return r
         if isinstance(pred_expr, ast.IfExp):
             return self.accepts_empty(scope, pred_expr.body, sentinel) or self.accepts_empty(scope, pred_expr.orelse, sentinel)
         return True     # unknown variable: may be anything
@@ -173,6 +177,7 @@ class CursorAnalysis:
                 r = bool(self.ev.call(func, args))
             except AnalysisError:
                 r = True     # cannot evaluate: assume it may accept the sentinel
+                self.vague_preds.add(func.qualname)
             self._empty_cache[key] = r
         return self._empty_cache[key]
 
@@ -189,6 +194,8 @@ class CursorAnalysis:
             it = Interp(self.p, f, client)
             fr, br = ctx[0], ctx[1]
             init = State({('cur', cname): ('Z', fr, br)})
+            if fr is None and client.direction(cname) == FWD:
+                init = init.set(('vague', cname), 'called with a cursor whose room the caller does not know')
             for pn in (ctx[2] if len(ctx) > 2 else ()):
                 init = init.set(('nonempty', pn), True)
             fl = it.run([init])
@@ -197,6 +204,8 @@ class CursorAnalysis:
                 cf = s.get(('cur', cname))
                 if cf is None:
                     cf = ('U', None, None)
+                if s.get(('vague', cname)) and cf[1] is not None and cf[1] < 0:
+                    cf = (cf[0], None, cf[2])        # "may be beyond" only because something could not be analysed: unknown, not negative
                 kind = s.get(('retkind',), UNK)
                 snapret = bool(s.get(('retsnap',), False))
                 outs.add(Outcome(kind, cf[0], cf[1], cf[2], snapret, s.show_trace()))
@@ -334,7 +343,7 @@ class CursorClient(Client):
         return s
 
     def unknown_move(self, s, c):
-        s = self.setcur(s, c, ('U', None, None))
+        s = self.setcur(s, c, ('U', None, None)).set(('vague', c), 'the cursor is moved by code the cursor domain does not see')
         s = self.kill_peeks(s, c)
         s = s.drop(('esc', c))
         for key, v in list(s.facts.items()):
@@ -350,6 +359,8 @@ class CursorClient(Client):
             return s          # position unchanged: every fact survives
         nd = dcompose(d, o.d)
         s = self.setcur(s, c, (nd, o.fr, o.br))
+        if o.d == 'U' or (o.fr is None and fr is not None):
+            s = s.set(('vague', c), 'a callee leaves the cursor in a state the cursor domain does not know')
         s = self.kill_peeks(s, c)
         for key, v in list(s.facts.items()):
             if key[0] == 'lp' and key[2] == c:
@@ -400,7 +411,8 @@ class CursorClient(Client):
         if bad is None and (br is not None and br < 0):
             bad = 'may lie before the start of the input'
         if bad:
-            self.an.report.bad('SCN-OVER', self.f, node, construct, '%s %s when it is read into a value here' % (what, bad), s)
+            self.an.report.bad('SCN-OVER', self.f, node, construct, '%s %s when it is read into a value here' % (what, bad), s,
+                               undecided=s.get(('vague', c)))
         else:
             self.an.report.ok('SCN-OVER', self.f, construct)
 
@@ -454,7 +466,7 @@ class CursorClient(Client):
         if isinstance(target, ast.Name):
             name = target.id
             s = s.drop(('snap', name)).drop(('peek', name)).drop(('peekfn', name)).drop(('bool', name)).drop(('val', name)) \
-                 .drop(('intfact', name)).drop(('lsnap', name)).drop(('cond', 'len', name)).drop(('nonempty', name)).drop(('elem', name)).drop(('cnt', name)).drop(('ge1', name))
+                 .drop(('intfact', name)).drop(('lsnap', name)).drop(('cond', 'len', name)).drop(('nonempty', name)).drop(('elem', name)).drop(('cnt', name)).drop(('ge1', name)).drop(('nechar', name))
             if name in self.cursors and not isinstance(value, tuple):
                 # creation / re-binding of a cursor
                 return [self._bind_cursor(s, name, value, stmt)]
@@ -702,12 +714,17 @@ class CursorClient(Client):
             return ts, fs
         if m in ('eat', 'consume') and call.args:
             step = 1 if dirn == FWD else -1
+            self.an.last_vague = None
             acc = self.an.accepts_empty(self.f, call.args[0], sent)
+            if self.an.last_vague:
+                s = s.set(('vague', c), 'predicate %s could not be tabulated on the empty sentinel' % self.an.last_vague)
             a0 = call.args[0]
             if isinstance(a0, ast.Name) and s.get(('peek', a0.id)) is not None and a0.id not in self.f.params:
                 acc = True           # eat(<char peeked earlier>): may be the empty sentinel
             if isinstance(a0, ast.Name) and s.get(('elem', a0.id)):
                 acc = False          # loop variable over a string / list of characters
+            if isinstance(a0, ast.Name) and s.get(('nechar', a0.id)):
+                acc = False          # a character that passed a predicate which rejects the empty sentinel
             if cls in ('emmet.token_scanner.TokenScanner', 'emmet.extract_abbreviation.reader.BackwardScanner'):
                 acc = False          # consume() tests `token and ..` / sol() first
             pre = s if (acc or (step < 0 and br is None)) else self.refine_room(s, c, FWD if step > 0 else BWD)
@@ -999,6 +1016,22 @@ class CursorClient(Client):
         p = self.p
         tgt = p.resolve_call(self.f, call)
         cursor_args = [(i, self.cursor_of(a)) for i, a in enumerate(call.args) if self.cursor_of(a) is not None]
+        # a cursor that moves out of sight: one of its methods handed over as a value (map(scanner.eat, ..)), or used inside a
+        # comprehension / generator / lambda among the arguments (all(scanner.eat(c) for c in ..)): displacement unknown
+        hidden = set()
+        for a in list(call.args) + [k.value for k in call.keywords]:
+            if isinstance(a, ast.Attribute) and self.cursor_of(a.value) is not None and a.attr not in ('pos', 'start', 'end', 'string', 'text', 'tokens', 'size'):
+                hidden.add(self.cursor_of(a.value))
+            for n in ast.walk(a):
+                if isinstance(n, (ast.GeneratorExp, ast.ListComp, ast.SetComp, ast.DictComp, ast.Lambda)):
+                    for x in ast.walk(n):
+                        if isinstance(x, ast.Name) and x.id in self.cursors:
+                            hidden.add(x.id)
+        if hidden:
+            st = s
+            for hc in sorted(hidden):
+                st = self.unknown_move(st, hc)
+            return [K(st, UNK)], [K(st, UNK)]
         if isinstance(tgt, Class) and tgt.qualname in self.an.token_classes():
             self._check_span(s, call, tgt)
         if isinstance(tgt, list) and len(tgt) == 1 and self._span_forwarder(tgt[0]):
@@ -1015,6 +1048,9 @@ class CursorClient(Client):
                     return [K(self.refine_room(s, pk[0], pk[1]), T)], []
                 pf = self._peek_fn(s, call)
                 ts = s.set(('peeksat', pk[0], pk[1]), sat | {q})
+                if call.args and isinstance(call.args[0], ast.Name) and not self.an.truthy_on_empty(tgt[0], CURSOR_CLASSES[self.cursors[pk[0]]][0]) \
+                        and tgt[0].qualname not in self.an.vague_preds:
+                    ts = ts.set(('nechar', call.args[0].id), True)       # the variable holds a character the predicate accepts: not the empty sentinel
                 if pf is not None:
                     ts = self.refine_room(ts, pf[0], pf[1])
                 return [K(ts, T)], [K(s, UNK)]
@@ -1054,12 +1090,13 @@ class CursorClient(Client):
                 st = self.apply_outcome(s, c, o)
                 if o.snapret:
                     st = st.set(('retsnapval',), (c, d, fr, br))
+                weak = st.set(('weakz',), g.short) if o.d == 'Z' else st     # "succeeded without moving" may be an infeasible combination of the summary
                 if o.kind == T:
-                    Ts.append(K(st, T))
+                    Ts.append(K(weak, T))
                 elif o.kind in (NONE, FNN):
                     Fs.append(K(st, o.kind))
                 else:
-                    Ts.append(K(st, UNK))
+                    Ts.append(K(weak, UNK))
                     Fs.append(K(st, UNK))
         return Ts, Fs
 
@@ -1114,9 +1151,22 @@ class CursorClient(Client):
                     if isinstance(n, ast.Assign) and isinstance(n.targets[0], ast.Attribute) and isinstance(n.targets[0].value, ast.Name) \
                             and n.targets[0].value.id == var and n.targets[0].attr in ('start', 'end'):
                         stored.add(n.targets[0].attr)
-            if stored != {'start', 'end'}:
+            passed = set()
+            n_span = len(call.args) - len(own)
+            if n_span == 1 and not call.keywords:
+                passed = {'start'}              # (.., start) given to the constructor, end stored afterwards
+            for k in call.keywords:
+                if k.arg in ('start', 'end'):
+                    passed.add(k.arg)
+            if (stored | passed) != {'start', 'end'}:
                 rep.bad('SCN-SPAN', f, call, construct, 'token is built without its span: %s never set (its position is None for every consumer)'
-                        % ' and '.join(sorted({'start', 'end'} - stored)), s)
+                        % ' and '.join(sorted({'start', 'end'} - stored - passed)), s)
+            elif passed == {'start'} and n_span == 1:
+                ok, why = self._start_ok(s, call.args[-1])
+                if ok:
+                    rep.ok('SCN-SPAN', f, construct)
+                else:
+                    rep.bad('SCN-SPAN', f, call, construct, 'start of the token span: ' + why, s)
             else:
                 rep.ok('SCN-SPAN', f, construct)
             return
@@ -1236,6 +1286,13 @@ class CursorClient(Client):
                     kind = T
                 elif b is False:
                     kind = FNN
+                elif value.id in self.f.locals and value.id not in self.f.params and self.f.qualname not in REVIEWED_SUMMARIES:
+                    # `return tok` where every assignment of tok is a constructor call of a class without __bool__ / __len__:
+                    # an instance of such a class is truthy
+                    vals = self.p.local_assignments(self.f, value.id)
+                    if vals and all(isinstance(x, ast.Call) and isinstance(self.p.resolve_call(self.f, x), Class)
+                                    and not any(self.p.find_method(self.p.resolve_call(self.f, x), m) is not None for m in ('__bool__', '__len__')) for x in vals):
+                        kind = T
                 sn = s.get(('snap', value.id))
                 if sn is not None and sn[1] == 'Z':
                     snapret = True
@@ -1298,7 +1355,7 @@ class CursorClient(Client):
             return s
         c, dirn = lc
         lid = loop.lineno
-        s = s.set(('lp', lid, c), 'Z').drop(('ate', c)).set(('fresh', lid, c), True)
+        s = s.set(('lp', lid, c), 'Z').drop(('ate', c)).set(('fresh', lid, c), True).drop(('weakz',))
         # snapshots taken before this iteration are not comparable with the marker
         s = s.drop_if(lambda k, v: k[0] == 'lpsnap' and k[1] == lid)
         self.an.loops.setdefault((self.f.qualname, lid), {'cursor': c, 'dir': dirn, 'ok': 0, 'func': self.f, 'node': loop})
@@ -1325,7 +1382,7 @@ class CursorClient(Client):
         if v != good:
             self.an.report.bad('SCN-PROGRESS', self.f, loop, 'while %s' % src_of(loop.test),
                                'a path through the loop body reaches the back edge without moving the cursor %s (displacement %s): the loop may not terminate'
-                               % ('forward' if dirn == FWD else 'backward', v), s, undecided=(v == 'U'))
+                               % ('forward' if dirn == FWD else 'backward', v), s, undecided=(v == 'U' or s.get(('weakz',)) is not None))
         else:
             info['ok'] += 1
         return s.drop(('lp', lid, c)).drop(('fresh', lid, c)).drop_if(lambda k, vv: k[0] == 'lpsnap' and k[1] == lid)
